@@ -197,6 +197,8 @@ def _bad_mem(rng: random.Random) -> list[tuple[int, int, int | None, str]]:
         (1, 256**15, None, "size wider than 15 bytes"),
         (256**aw, 1, iso.alfid_byte(aw, sw), "address does not fit the given ALFID"),
         (1, 256**sw, iso.alfid_byte(aw, sw), "size does not fit the given ALFID"),
+        (1, 1, 0x00, "ALFID 0x00 (both nibbles zero)"),
+        (0x1234, 0x10, 0x00, "ALFID 0x00 (both nibbles zero)"),
         (1, 1, 0x01, "ALFID with zero size nibble"),
         (1, 1, 0x10, "ALFID with zero address nibble"),
         (1, 1, 0x111, "ALFID above 0xFF"),
